@@ -11,6 +11,30 @@ from .expr import *
 MUTATORS = {'append', 'extend', 'add', 'update', 'pop', 'insert', 'sort', 'remove', 'clear', 'setdefault', 'reverse'}
 
 
+_hq_cache = {}
+
+
+def _has_quant(f):
+    k = f.get_id()
+    if k in _hq_cache:
+        return _hq_cache[k]
+    seen = set()
+    stack = [f]
+    res = False
+    while stack:
+        x = stack.pop()
+        i = x.get_id()
+        if i in seen:
+            continue
+        seen.add(i)
+        if z3.is_quantifier(x):
+            res = True
+            break
+        stack.extend(x.children())
+    _hq_cache[k] = res
+    return res
+
+
 class Obligation:
     def __init__(self, name, hyps, goal, kind, line, fn, expect='proved', meta=None):
         self.name = name
@@ -106,7 +130,8 @@ class Engine:
         s = self._solver
         s.push()
         try:
-            s.add(*pc)
+            # pruning uses only the quantifier-free hypotheses (fewer hypotheses: still sound for pruning, and fast)
+            s.add(*[f for f in pc if not _has_quant(f)])
             r = s.check()
         finally:
             s.pop()
@@ -283,6 +308,16 @@ class Engine:
             self.trusted_used.add(q)
         ghosts = {}
         assumes = []
+        for g, gty in c.d.get('ghost_params', {}).items():
+            # ghost arguments: bound by name from the caller's ghosts / variables
+            src = None
+            if self.cur is not None and g in getattr(self.cur, 'ghost_vals', {}):
+                src = self.cur.ghost_vals[g]
+            elif g in ctx.env:
+                src = ctx.env[g]
+            if src is None:
+                raise OutOfSubset(f'ghost argument {g} of {q} not available in caller')
+            ghosts[g] = coerce(src, c.ty(gty))
         for g, text in c.ghost.items():
             gv, a = self.spec_eval(text, env, ghosts=ghosts)
             ghosts[g] = gv
